@@ -49,7 +49,17 @@
      in-place element helpers and in-place update_/transform_<attr>, and
      attribute-transform keywords (they read through getattr(obj, name,
      default), whose class-attribute fallback is only excluded by an invariant
-     "every instance holds every defaulted attribute" that is not proved). *)
+     "every instance holds every defaulted attribute" that is not proved).
+
+   UPDATE (proof extension, see the sections "Every instance holds every defaulted attribute",
+   "C08_reset_fresh in its FINAL-HEAP form" and "C08_peers_disjoint over histories" below): the
+   holds-defaults invariant is proved (C08_no_defaulted_attribute_removed,
+   C08_holds_defaults_history; with the finding C08_unchanged_keyword_refuted), the final-heap form
+   of reset freshness is proved for del / reset_<a>(_inplace=True) without dependants, and peers
+   disjointness over histories is proved for the alphabet `peer_op_ok` with scalar arguments
+   (C08_peers_disjoint_history_partial), the model never storing a dangling reference
+   (C08_no_dangling_reference_is_ever_stored).  What is still missing is listed there and in
+   docs/C08.md. *)
 From Coq Require Import List ZArith Bool Arith Lia.
 From SC Require Import Base.Res Inst.Heap Inst.ClassTable Inst.Model Inst.Framed Inst.FrameProofs
   Inst.Reach Inst.SepProofs Props.C01 Props.C02 Inst.AtomicProofs Inst.SepMore Inst.SepMore2 Inst.SepMore3 Inst.SepMore4.
